@@ -32,6 +32,19 @@ def run(eng, rep, tier):
               "the parser raises %s" % (bad[0].exc if bad else "nothing at all for non-members"), summ,
               site=(bad[0].site.to_json() if bad else site_of(prog, fi, fi.node)))
     missing = [ev for ev in summ.events if ev.kind == "attr" and ev.note.startswith("missing-on:")]
+    # a sentinel comparison whose satisfied branch leaves the function discharges the site, provided every bare string
+    # ever put on that stack is that sentinel
+    sentinels = {c.value for c in ast.walk(fi.node) if isinstance(c, ast.Constant) and isinstance(c.value, str)
+                 and c.value not in ((ast.get_docstring(fi.node) or ""),)}
+    sentinels = {x for x in sentinels if len(x) <= 3}
+
+    def sentinel_guarded(ev):
+        base = ast.unparse(ev.node.value) if isinstance(ev.node, ast.Attribute) else None
+        if base is None or len(sentinels) != 1:
+            return False
+        lit = next(iter(sentinels))
+        return any(f[0] in ("%s == %r" % (base, lit), '%s == "%s"' % (base, lit)) and f[1] is False for f in ev.facts)
+    missing = [ev for ev in missing if not sentinel_guarded(ev)]
     for ev in missing[:1]:
         rep.violation("R6", "C14.1", fi.qname, "attribute-on-sentinel",
                       "`%s` is evaluated on a stack item that can be the bare string sentinel (%s): AttributeError instead "
